@@ -109,6 +109,12 @@ class Catalogue(object):
             raise UnknownInput(name)
         return i
 
+    def count_inputs(self, inp):
+        """names of all copy-count inputs of the form that owns inp"""
+        I = self.hab_inputs
+        return sorted(i.name() for i in inp._form.inputs()
+                      if type(i) is I.IntegerInput and i.base_name().startswith('number_') and i.base_name() != 'number_dependents')
+
     def is_copy_form(self, cls):
         return issubclass(cls, self.hab_form.InputForm)
 
@@ -132,10 +138,23 @@ def input_symbol(cat, inp, nonneg=False):
     if t is I.IntegerInput:
         lo = 0 if nonneg else -INT_BOUND
         hi = INT_BOUND
-        if inp.base_name().startswith('number_'):
-            lo, hi = 0, ex.int_bound
+        if inp.base_name() == 'number_dependents':
+            lo, hi = 0, 5
+        elif inp.base_name().startswith('number_'):
+            lo, hi = 0, getattr(ex, 'copies_max', ex.int_bound)
+            r = symx.fresh_int(name, lo, hi)
+            tot = getattr(ex, 'copies_total', None)
+            if tot is not None:
+                acc = tm.I(0)
+                for other in cat.count_inputs(inp):
+                    acc = tm.add(acc, tm.var('i:' + other, 'I'))
+                ex.assume(tm.le(acc, tm.I(tot)))
+            return r
         return symx.fresh_int(name, lo, hi)
     if t is I.FloatInput:
+        if getattr(ex, 'cents', False) and 'pct' not in inp.base_name():
+            # stated bound of the whole-return checks: amounts typed in whole cents
+            return symx.fresh_money(name, places=2, lo=(0 if nonneg else -MONEY_BOUND), hi=MONEY_BOUND)
         return symx.fresh_real(name, 0 if nonneg else -MONEY_BOUND, MONEY_BOUND)
     if t is I.EnumInput:
         return symx.fresh_enum(inp.enum, name, nullable=inp.allow_empty)
@@ -208,7 +227,7 @@ class SymValues(object):
 
 # ---------------------------------------------------------------- summarise
 class PathSummary(object):
-    __slots__ = ('decisions', 'assumes', 'reads', 'kind', 'value', 'pytype', 'exc', 'detail', 'events', 'unknown')
+    __slots__ = ('decisions', 'assumes', 'conds', 'reads', 'kind', 'value', 'pytype', 'exc', 'detail', 'events', 'unknown')
 
 
 def classify(cat, p):
@@ -218,7 +237,19 @@ def classify(cat, p):
     s.decisions = [r.term if r.value else tm.not_(r.term) for r in p.decisions if not r.assume and not r.forced]
     s.assumes = [r.term for r in p.decisions if r.assume]
     s.events = p.events
-    s.reads = [(e[0], e[1]) for e in p.events if e[0] in ('read_line', 'read_input')]
+    # ordered essential conditions, and for each read how many of them precede it
+    # (assumes are total definitions / typing of fresh symbols and inputs: they
+    # are kept apart and asserted globally by the return model)
+    ess_before = []
+    cnt = 0
+    s.conds = []
+    for r in p.decisions:
+        ess_before.append(cnt)
+        if not r.assume and not r.forced:
+            s.conds.append(r.term if r.value else tm.not_(r.term))
+            cnt += 1
+    ess_before.append(cnt)
+    s.reads = [(e[0], e[1], ess_before[min(e[-1], len(p.decisions))]) for e in p.events if e[0] in ('read_line', 'read_input')]
     s.exc = None
     s.value = None
     s.pytype = None
@@ -258,9 +289,13 @@ def classify(cat, p):
     return s
 
 
-def summarise(cat, fld, int_bound=2, nonneg=False, timeout_ms=20000, max_paths=60000, nonneg_lines=None):
+def summarise(cat, fld, int_bound=2, nonneg=False, timeout_ms=20000, max_paths=60000, nonneg_lines=None, copies_total=None, relaxed=False, cents=False):
     """All feasible paths of fld.value(i, v)."""
-    ex = symx.Explorer(timeout_ms=timeout_ms, max_paths=max_paths, int_bound=int_bound)
+    ex = symx.Explorer(timeout_ms=timeout_ms, max_paths=max_paths, int_bound=max(int_bound, 5))
+    ex.copies_max = int_bound
+    ex.copies_total = copies_total
+    ex.relaxed = relaxed
+    ex.cents = cents
     ex.prefix = fld.name()
     FA = cat.hab_form.FormAccessor
     si = SymInputs(cat, nonneg)
